@@ -46,6 +46,7 @@ fn main() {
                 div_cases: num("div", 30),
                 split_cases: num("split", 100),
                 gcd_sweep: num("gcd", 0),
+                mulsearch: num("mulsearch", 0),
                 profile: get("profile", "all"),
             };
             let what = get("what", "lattice+random");
